@@ -80,7 +80,7 @@ fn structured_strings() -> Vec<Vec<u8>> {
     // texts long enough for the long-bracket form holding every combination of closing brackets of levels 0-3
     // (the level chosen for the literal has to avoid all of them), with and without a trailing `]`
     for mask in 0u32..16 {
-        for tail in [false, true] {
+        for tail in ["", "]", "]=", "]==", "]]", "]=]"] {
             let mut s = b"a text that is long enough to be written between long brackets: ".to_vec();
             for (lvl, closer) in ["]]", "]=]", "]==]", "]===]"].iter().enumerate() {
                 if mask & (1 << lvl) != 0 {
@@ -88,9 +88,7 @@ fn structured_strings() -> Vec<Vec<u8>> {
                 }
             }
             s.extend_from_slice(b"the end");
-            if tail {
-                s.push(b']');
-            }
+            s.extend_from_slice(tail.as_bytes());
             v.push(s);
         }
     }
